@@ -161,7 +161,7 @@ def array_facts(plan, cv, results, outs, resumed=False, pre=None, target_info=No
             if name in res_by_name and name in by_name:
                 r = np.asarray(res_by_name[name])
                 res = grid_str(r.shape, r.dtype, by_name[name].chunks)
-        recs.append(dict(name=name, prod=a["prod"] or "", nkeys=nkeys, decl=decl, back=back, res=res, final="", ref="",
+        recs.append(dict(name=name, prod=a["prod"] or "", nkeys=nkeys, decl=decl, back=back, res=res, final="", ref="", rnddup=False,
                          complete=bool(pre.get(name, {}).get("complete", False)) if pre else False, zerod=bool(zerod),
                          path=a.get("path") or ""))
     return recs
@@ -173,7 +173,7 @@ def to_doc(plan, events, facts, resumed=False):
     return dict(plan=dict(ops=ops, arrays=arrays, resumed=resumed), events=map_events(plan, events))
 
 
-def run_adversarial(prog, nv, seed, order="shuffle", repeats=0.3, pickle_p=0.0, optimize=True, with_reference=False):
+def run_adversarial(prog, nv, seed, order="shuffle", repeats=0.3, pickle_p=0.0, optimize=True, with_reference=False, recreate=False):
     """Build and run `prog` under the adversarial executor.  Returns dict(doc, meta) or None if declined."""
     import cubed
     warnings.simplefilter("ignore")
@@ -202,7 +202,7 @@ def run_adversarial(prog, nv, seed, order="shuffle", repeats=0.3, pickle_p=0.0, 
         except programs.DECLINE:
             return None
         arrays = [cv[o] for o in prog["outs"]]
-        ex = AdversarialExecutor(order=order, repeats=repeats, pickle_p=pickle_p, seed=seed)
+        ex = AdversarialExecutor(order=order, repeats=repeats, pickle_p=pickle_p, seed=seed, recreate=recreate)
         res, exc, plan, evs, cb = traced.run_compute(arrays, s, executor=ex, optimize_graph=optimize)
         if plan is None:
             return None if isinstance(exc, ValueError) else dict(error=repr(exc)[:300])
@@ -219,6 +219,13 @@ def run_adversarial(prog, nv, seed, order="shuffle", repeats=0.3, pickle_p=0.0, 
             else:
                 return dict(error="reference build has a different number of arrays")
         ok_vals = all(programs.same(r, nv[o]) for r, o in zip(res, prog["outs"]))
+        import cubed as _cubed
+        for i, inp in enumerate(prog["inputs"]):
+            if inp.get("src") == "random" and isinstance(cv[i], _cubed.Array):
+                f = next((x for x in facts if x["name"] == cv[i].name), None)
+                if f is not None and f["path"]:
+                    hs = list(data_keys(f["path"]).values())
+                    f["rnddup"] = len(set(hs)) != len(hs)
         doc = to_doc(plan, evs, facts)
         meta = dict(program=prog, order=order, repeats=repeats, pickle_p=pickle_p, optimize_graph=optimize, seed=seed,
                     executions=len(ex.log), dup=sum(1 for x in ex.log if x[2] != "first"), values_equal_numpy=bool(ok_vals),
